@@ -12,11 +12,11 @@ ID = "C05"
 RULE = (
     "Part 'seq' (shards = strategy setting (10) x importer (4; the fourth only for the six merge settings) x kind of the second "
     "arrival): arrival sequences for one key X: a fixed base arrival followed by 1..2 (quick) / 1..3 (thorough) arrivals from an "
-    "alphabet of 24 (quick) / 34 (thorough) kinds = {same columns, different start, different source, different strand, undefined '.' "
-    "coordinates} x attribute sets (2 quick / 3 thorough; one names the same value twice on one line) x {Parent p1, p2}, plus explicit "
-    "ID=X_1 and ID=X_2 features and two arrivals naming no parent; when the second arrival is the explicit X_1, optionally X_2 is "
-    "inserted right after it (X, X_1, X_2 all taken: the next free key is X_3); strategy settings = error, warning, replace, "
-    "create_unique, merge with force_merge_fields in {none, source, strand, source+strand, strand+source}, and merge with "
+    "alphabet of 28 (quick) / 40 (thorough) kinds = {same columns, different start, different source, different strand, undefined '.' "
+    "coordinates, only the frame differs} x attribute sets (2 quick / 3 thorough; one names the same value twice on one line) x {Parent "
+    "p1, p2}, plus explicit ID=X_1 and ID=X_2 features and two arrivals naming no parent; when the second arrival is the explicit X_1, "
+    "optionally X_2 is inserted right after it (X, X_1, X_2 all taken: the next free key is X_3); strategy settings = error, warning, "
+    "replace, create_unique, merge with force_merge_fields in {none, source, strand, source+strand, strand+source}, and merge with "
     "verbose='debug'; importer = GFF3 create_db, GFF3 create_db of a prefix + update() of the rest at every split (file database, "
     "observed through a second connection), GTF create_db (inference off), GFF3 create_db with a transform moving every coordinate by "
     "200000 (another bin). Compared with a reference model of the strategies: abort under 'error', no other exception (an sqlite "
